@@ -85,7 +85,7 @@ PROPS = {
         "facts": [ws_facts],
         "runs": [_run(["werr", "werrs", "wire", "recv", "rerr", "back", "berr", "err", "codec", "rx", "wx", "proto", "resp", "status", "req", "srx", "swx", "crx", "cwx", "serr"])],
         "oracles": ["c12-"],  # c12-roundtrip, c12-mask, c12-trunc, c12-handshake
-        "rule": "case = message program on two back-to-back conns (role, compression level, frame limit, message limit, segmentation style) or a "
+        "rule": "case = message program on two back-to-back conns (with a second pair taking a turn inside a message's inflate or deflate in `I` ops; role, compression level, frame limit, message limit, segmentation style) or a "
                 "frame stream fed to Parse, or a maskXOR sweep; distinct by hash of (configuration class, per-op outcome classes); non-trivial iff "
                 "something was delivered, buffered or refused",
         "assumptions": COMMON_ASSUME,
